@@ -193,7 +193,7 @@ PROPS["C25"]["parts"] = [{"wprop": "C25", "build": "plain", "frac": 0.5}, {"wpro
 PROPS["C25"]["engine"] = "E agent/IPC simulator (part A) + B yield scheduler over the agent and IPC server (part B)"
 PROPS["C25"]["rule"] += "; part B: 1-3 streams subscribed beforehand, 0-2 queries, then three concurrent tasks (user events fired through the agent; subscribe/stop/hang-up/ordinary commands on a second connection; replies, client stall/resume and sleeps around the deadlines) under the yield scheduler"
 PROPS["C25"]["quick"].update({"runs": 3000, "budget_s": 90})
-PROPS["C01"]["replay_attempts"] = 3
+PROPS["C01"]["replay_attempts"] = 5  # engine C: about 4 runs in 5 repeat bit-for-bit (measured), verdicts more often
 PROPS["C01"]["quick"].update({"batch": 4, "wd_s": 300})
 PROPS["C01"]["thorough"].update({"batch": 16, "wd_s": 300})
 PROPS["C14"] = D("cases are seeded histories against a real Serf node whose snapshot lives on simfs: user events and queries delivered by gossip and push/pull, real joins (with/without ignoreOld) against a real peer holding events, fake-time advances around the 500 ms flush interval, and 1-3 restarts (crash: only bytes already handed to the OS survive; or clean shutdown) followed by old and new messages; distinct = distinct step-list hash; non-trivial = messages injected after a restart",
